@@ -240,6 +240,8 @@ def _gen_ops(rng, mode, ops, n_steps, ref, x, P, k, p, tags, sensors, max_dt, in
                     faults = ["tiny_dt"] if tiny else []
                     if rng.random() < p["p_dup"]:
                         faults.append("duplicate_call")
+                    if rng.random() < 0.06:
+                        faults.append("same_objects_rewritten")
                     op = {"op": "predict", "dt": fx(dt), "track": t, "control": ctl if (ref.U or rng.random() < 0.5) else None, "faults": faults}
                     ops.append(op)
                     nxt = ref.predict(dt, xs[t], Ps[t], {u: xf(v) for u, v in ctl.items()})
@@ -403,6 +405,23 @@ class Harness:
             pn = {k_: v * 3.0 for k_, v in b["process_noise"].items()}
             sn = {k_: {r: v * 0.5 for r, v in m.items()} for k_, m in b["sensor_noises"].items()}
             self.siblings.append(python.compile_ekf(b["model"], pn, b["sensor_models"], sn, cm, config=cfgs))
+        except Exception:  # noqa: BLE001
+            pass
+        try:
+            # the same expressions over the same symbols, grouped differently (a control or calibration symbol promoted to a
+            # constant state): anything shared between filters and keyed on expressions / symbol sets must not leak across
+            d2 = json.loads(json.dumps(d))
+            mv = (sorted(d2["control"]) or sorted(d2["calibration"]) or [None])[0 if when == "before" else -1]
+            if mv is not None:
+                grp = "control" if mv in d2["control"] else "calibration"
+                d2[grp] = [n_ for n_ in d2[grp] if n_ != mv]
+                d2["state"] = d2["state"] + [mv]
+                d2["state_model"][mv] = f"Symbol('{mv}')"
+                d2["process_noise"].pop(mv, None)
+                d2["calibration_map"].pop(mv, None)
+                b2 = models.build(d2)
+                self.siblings.append(python.compile_ekf(b2["model"], b2["process_noise"], b2["sensor_models"], b2["sensor_noises"], b2["calibration_map"], config=python.Config(common_subexpression_elimination=self._build[1]["common_subexpression_elimination"] if isinstance(self._build[1], dict) else self._build[1].common_subexpression_elimination, innovation_filtering=None)))
+                self.res.stats["probe:sibling_regrouped"] += 1
         except Exception:  # noqa: BLE001
             pass
         try:
@@ -769,6 +788,23 @@ def _execute_direct(schedule, h: Harness, res: Result):
             dt = xf(op["dt"])
             if "tiny_dt" in op["faults"]:
                 res.stats["fault:tiny_dt"] += 1
+            if "same_objects_rewritten" in op["faults"]:
+                # caller-owned objects used for an earlier call with OTHER contents, then rewritten in place: the result must
+                # depend on what the objects hold, not on which objects they are
+                res.stats["fault:same_objects_rewritten"] += 1
+                try:
+                    own_st = h.ekf.State.from_data(np.array(st.data, dtype=float) + 0.25)
+                    own_cov = h.ekf.Covariance.from_data(np.array(cov.data, dtype=float) * 1.5)
+                    own_ctl = None if ctl is None else h.ekf.Control.from_data(np.array(ctl.data, dtype=float) + 0.5)
+                    with contextlib.redirect_stdout(io.StringIO()):
+                        h.ekf.process_model(dt, own_st, own_cov, own_ctl) if own_ctl is not None else h.ekf.process_model(dt, own_st, own_cov)
+                    own_st.data[...] = st.data
+                    own_cov.data[...] = cov.data
+                    if own_ctl is not None:
+                        own_ctl.data[...] = ctl.data
+                    st, cov, ctl = own_st, own_cov, own_ctl
+                except Exception:  # noqa: BLE001 - the warm-up call is not this step's subject
+                    res.stats["probe:rewrite_warmup_failed"] += 1
             out = h.predict(i, dt, st, cov, ctl, duplicate="duplicate_call" in op["faults"])
             if out is not None:
                 saved[i] = ("predict", (dt, st, cov, ctl), out)
